@@ -142,6 +142,7 @@ func Corpus() *Program {
 		fld("EmbOne", 6, KMessage, ref("WithEmbed"), nonNull()))
 	msg("Embedding", nil,
 		fld("Own", 1, KString),
+		fld("EpKey", 4, KString), fld("EvMiddle", 5, KInt64), // sort between the fields promoted from EmbP / EmbV when sort is on
 		fld("EmbV", 2, KMessage, ref("EmbV"), embed(), nonNull()),
 		fld("EmbP", 3, KMessage, ref("EmbP"), embed()))
 
@@ -199,7 +200,8 @@ func Corpus() *Program {
 		// (a sibling called like the default name of the *overridden* field would be a duplicate attribute in
 		// every configuration that lacks the override: not a legal program)
 		fld("Kind", 14, KString, jsonTag("type")), fld("SubKind", 15, KString, jsonTag("kind")),
-		fld("KindLeaf", 17, KMessage, ref("Leaf"), jsonTag("sub_leaf")), fld("SubLeaf", 18, KMessage, ref("Mid"), jsonTag("kind_leaf")))
+		fld("KindLeaf", 17, KMessage, ref("Leaf"), jsonTag("sub_leaf")), fld("SubLeaf", 18, KMessage, ref("Mid"), jsonTag("kind_leaf")),
+		fld("NShared", 19, KMessage, ref("SharedBad")), fld("NSharedList", 20, KMessage, ref("SharedBad"), list()))
 
 	// attribute names that coincide with names the generated code uses internally (map entry fields,
 	// the placeholder, container members), next to maps and lists of messages
@@ -245,6 +247,30 @@ func Corpus() *Program {
 		fld("KindS", 17, KString, oneof("Kind")), fld("KindM", 18, KMessage, ref("Leaf"), oneof("Kind")),
 		fld("EmbP", 19, KMessage, ref("EmbP"), embed()))
 
+	// requested first, cannot be mapped (integer map key, met after the nested messages were built)
+	// a shared message with a field that cannot be mapped: the types that use it validly exclude that field
+	// by path, Broken does not
+	msg("SharedBad", nil,
+		fld("SbStr", 1, KString), fld("SbNum", 2, KInt64),
+		Field{Name: "SbBad", Num: 3, Kind: KString, Card: CardMap, MapKey: KInt32})
+	msg("Broken", nil,
+		fld("BrShared", 7, KMessage, ref("SharedBad")),
+		fld("BrName", 1, KString), fld("BrMid", 2, KMessage, ref("Mid")), fld("BrLeaves", 3, KMessage, ref("Leaf"), list()),
+		fld("BrOuter", 4, KMessage, ref("Outer"), nonNull()), fld("BrEmb", 5, KMessage, ref("WithEmbed")),
+		Field{Name: "BrBad", Num: 6, Kind: KString, Card: CardMap, MapKey: KInt32})
+	p.Unbuildable = []string{"Broken"}
+	// the plugin builds the selected types in declaration order: Broken is declared first
+	{
+		var front, rest []Message
+		for _, m := range p.Messages {
+			if m.Name == "Broken" {
+				front = append(front, m)
+			} else {
+				rest = append(rest, m)
+			}
+		}
+		p.Messages = append(front, rest...)
+	}
 	p.Config = Config{
 		Types: []string{"Scalars", "Temporal", "Collections", "Nesting", "Oneofs", "Embedding", "EmbedOneof",
 			"EmbedDeep", "Naming", "Empties", "Sink", "DeepNest", "Interleave", "Collide", "Singles",
@@ -252,7 +278,7 @@ func Corpus() *Program {
 		DurationCustomType: DurationCastName,
 		TimeType:           SimTimeType,
 		DurationType:       SimDurationType,
-		ExcludeFields: []string{"Naming.Secret", "Naming.SecretList", "NamedLeaf.Hidden", "Naming.Other.Skip", "EmbP.EpHidden", "EmbIn.EiHidden", "EmbO.EoHidden", "Nesting.PtrList.Attrs", "DeepNest.Out.ByKey.LeafMap",
+		ExcludeFields: []string{"Naming.Secret", "Naming.SecretList", "NamedLeaf.Hidden", "Naming.Other.Skip", "EmbP.EpHidden", "EmbIn.EiHidden", "EmbO.EoHidden", "Nesting.PtrList.Attrs", "DeepNest.Out.ByKey.LeafMap", "Naming.NShared.SbBad", "Naming.NSharedList.SbBad",
 			"Oneofs.ChC", "WithOneof.VarI", "Interleave.CInline"}, // branches of oneof groups that keep other branches in the schema,
 		ComputedFields: []string{"Scalars.FString", "Sink.Count", "Leaf.Num", "Sink.Spec.Name", "Oneofs.ChI", "Oneofs.pick_l", "Mid.ChoiceB", "Empties.PickE",
 			"Interleave.BGroup", "Interleave.DHost", "EmbO.EwA", "EmbO.EwB", "Oneofs.pick_s",
